@@ -10,10 +10,10 @@ OTHER = ("decides named structural clauses that are genuine necessary conditions
          "type-checked source and SSA form of /repo's working tree; the value-level remainder of the behaviour is not decided: ")
 
 checks = {
- "C01": ("ROUND/FLOOR-NOBIAS (altitude and lon/lat quantisation floors, no bias), MAPORDER (one output per input, in order), KIND-LAYOUT (each index labelled with its own axis' zoom), WRAPPER (spatial form = extended form with h=v), GUARD (zoom 0..35, nil points)",
+ "C01": ("ROUND/FLOOR-NOBIAS (altitude and lon/lat quantisation floors, no bias), MAPORDER + ELEMENTWISE (one output per input, in order, no state carried between points), KIND-LAYOUT (each index labelled with its own axis' zoom), WRAPPER (spatial form = extended form with h=v), GUARD (zoom 0..35, nil points)",
          "not decided: Mercator formula correctness, boundary behaviour at lon=+-180 / lat limit, 0 <= x,y < 2^h (float facts)",
          "component-kind inference + rounding-mode classification + scenario path analysis on SSA"),
- "C03": ("ROUND (vertical zoom-out floors), DISTINCT (every success return de-duplicated), KIND-CALL/KIND-LAYOUT (axes wired independently, every output field at the zoom of its own axis), AXISSYM (x and y bounds isomorphic), WRAPPER, GUARD",
+ "C03": ("ROUND (vertical zoom-out floors), DISTINCT (every success return de-duplicated), KIND-CALL/KIND-LAYOUT (axes wired independently, every output field at the zoom of its own axis), AXISSYM (x and y bounds isomorphic), NOCLAMP (no index clamp / range check in the per-axis zoom functions), WRAPPER, GUARD",
          "not decided: the child range is exactly [i*2^d,(i+1)*2^d-1] and the 4^dh*2^dv count (value arithmetic)",
          "component-kind inference, rounding-mode classification, distinctness lattice, sibling isomorphism on SSA"),
  "C04": ("ROUND (ancestor floors below ground), DISTINCT, ELIGIBILITY (3x3 ordering enumeration: pass-through iff coarser on some axis), KIND rules, WRAPPER, GUARD",
@@ -25,7 +25,7 @@ checks = {
  "C06": ("DISTINCT, INCLUDES (end-point voxels in every result), EARLY-SINGLE, PASSTHRU (zooms and midpoint reporting through the recursion), WRAPPER, GUARD",
          "NOT decided: absence of gaps, 26-connectivity, 'only voxels the segment touches', termination thresholds (float midpoints vs voxel sizes)",
          "accumulator/def-use analysis, distinctness lattice, call-graph value identity"),
- "C07": ("KIND-LAYOUT (hZoom/x/y/vZoom/f with zooms copied), AXISSYM (x and y wrapped by isomorphic computations and conditions), NOWRAP-F (vertical index exactly f+dv), GUARD (malformed ID -> empty ID)",
+ "C07": ("KIND-LAYOUT (hZoom/x/y/vZoom/f with zooms copied), AXISSYM (x and y wrapped by isomorphic computations and conditions), NOWRAP-F (vertical index exactly f+dv), RANGE (symbolic interval analysis: printed x,y in [0, 2^h-1] on every path), GUARD (malformed ID -> empty ID)",
          "not decided: that the float Pow/Mod/repeated-addition arithmetic equals mod 2^h (hence the algebraic laws)",
          "component-kind inference + expression-graph isomorphism"),
  "C08": ("STENCIL (partial evaluation of the constant loops: exactly the 6/8/26 offset sets, each once; N-layer nest = full box minus origin for every input ID), VIASHIFT, DISTINCT, GUARD (negative layers)",
@@ -34,28 +34,28 @@ checks = {
  "C09": ("ROUND-AGREE (every vertical rounding site in point lookup, zoom change, merge ancestor, key scaling is floor), MINSEL/REUSE (overlap aligns with the zoom change itself at the per-axis minimum), ELIGIBILITY",
          "not decided: zoom-in-then-out identity and merge-of-all-descendants identity as value equalities",
          "rounding-mode agreement over call-graph closures"),
- "C10": ("KIND-LAYOUT/KIND-STORE/KIND-CALL (parser, printer, FieldParams and both notation permutations agree position by position), MAPORDER, MAXSEL (expansion targets max(h,v), raises only the coarser axis), GUARD (arity)",
+ "C10": ("KIND-LAYOUT/KIND-STORE/KIND-CALL (parser, printer, FieldParams and both notation permutations agree position by position), MAPORDER, ELEMENTWISE, MAXSEL (every zoom change of the expansion targets max(h,v); the coarser axis is raised), NOCLAMP, GUARD (arity)",
          "not decided: 4^d / 2^d count and region equality of the expansion",
          "component-kind/layout inference + ordering enumeration"),
- "C11": ("KIND-CALL (groups carry the request's zooms/height/base parameters; role wiring of HorizontalZoom/VerticalZoom), DISTINCT-PAIR (miss-then-insert on the cross-ID map), PER-ITERATION (fresh scratch lists), NOFLOAT (integer-only encoder/decoder), REUSE, ERRUSED, GUARD (zoom domains, arity, integer fields, maxHeight<minHeight)",
+ "C11": ("KIND-CALL (groups carry the request's zooms/height/base parameters; role wiring of HorizontalZoom/VerticalZoom), DISTINCT-PAIR (miss-then-insert on the cross-ID map), PER-ITERATION (fresh scratch lists), ELEMENTWISE (no cache carried between IDs), NOFLOAT (integer-only encoder/decoder), REUSE, ERRUSED, GUARD (zoom domains, arity, integer fields, maxHeight<minHeight)",
          "NOT decided: that the encoder is the bit interleaving and the decoder its inverse (loop-carried bit arithmetic)",
          "component-kind inference, dominance-based guard analysis, scenario path analysis"),
  "C12": ("ASHIFT/ROUND (all scaling is a signed shift = floor), RANGEUSE, INTERVAL (existence tests accept exactly [-2^z,2^z-1] / [0,2^z-1]), OUTRANGE (both returned bounds range-checked), UPPER-BOUND-FORM (scale(i+1)-1 guarded or clamped), NOPARTIAL, KIND-LAYOUT (F vs key scale)",
          "NOT decided: the covering property itself (integer interval arithmetic over five unbounded parameters); note: an independent brute-force comparison reported by a sub-agent suggests ConvertZToMinMaxAltitudekey loses altitude for unaligned offsets when outputZoom < zBaseExponent - outside what this check decides",
          "rounding-mode classification + bound-expression shape analysis on SSA"),
- "C13": ("KIND-STORE/KIND-CALL (hZoom,x,y copied field for field, vZoom = request's), RANGE-LOOP (emitted range = the two results of this tile's range call, value identity), COMPOSE, DISTINCT, NOPARTIAL, OUTRANGE, MAXSEL, GUARD (tile zooms two-sided)",
+ "C13": ("KIND-STORE/KIND-CALL (hZoom,x,y copied field for field, vZoom = request's), RANGE-LOOP (emitted range = the two results of this tile's range call, value identity), ELEMENTWISE, COMPOSE, DISTINCT, NOPARTIAL, OUTRANGE, MAXSEL, GUARD (tile zooms two-sided)",
          "not decided: that the emitted range is the covering range (C12's undecided part)",
          "component-kind inference + loop-bound value identity + call-graph composition"),
  "C14": ("INCLUDES (line IDs in both modes), FILTER-SUBSET (measured additions are current candidates behind distance < radius itself), LAYERFIT (layer counts = max fit over all line voxels), NOORDERDEP, DISTINCT, GUARD (negative radius, zooms, nil points)",
          "NOT decided: the geometric distance bound, radius-0 identity, termination of the layer fit",
          "value-identity and dominance analysis on SSA + ordering enumeration"),
- "C15": ("GUARD table (89 rows, scenario path analysis: interval / nil / arity / parse-failure / option / order facts), ERRUSED (no strconv error of caller text dropped), FIELDGUARD (who writes Point fields, rounding direction of latitude, limit test dominates store), NOPARTIAL",
+ "C15": ("GUARD table (94 rows, scenario path analysis: interval / nil / arity / parse-failure / option / order facts), ERRUSED (no strconv error of caller text dropped), PARSE-BASE (decimal only), FIELDGUARD (who writes Point fields, rounding direction of latitude, limit test dominates store), NOPARTIAL",
          "not decided: the < 1e-10 magnitude of the latitude cut; panics inside third-party code for valid inputs; zoom fields inside well-formed IDs (excluded by the property's quantifier)",
          "abstract scenario propagation over CFGs with recursive callee summaries (no code executed, no solver)"),
  "C16": ("EFFECT-PARAM (no exported function writes caller data), NOORDERDEP (no positional use of map-ordered slices), MAPLOOP-COMMUTATIVE, DISTINCT / DISTINCT-PAIR rows, NONDET (no other nondeterminism source reachable)",
          "NOT decided: invariance of the result set under permutation / duplication of the input list in general (value-level confluence)",
          "interprocedural effect analysis + map-order taint"),
- "C18": ("PASSTHRU (altitude same value end to end; x/y exactly the transform's results), MAPORDER, ERRUSED (Safe transform error tested and mapped to the conversion error), CRS-ARGS (direction)",
+ "C18": ("PASSTHRU (altitude same value end to end; x/y exactly the transform's results), MAPORDER, ELEMENTWISE, ERRUSED (Safe transform error tested and mapped to the conversion error), CRS-ARGS (direction)",
          "NOT decided: Mercator numerics, 2e-10 round trip, agreement with the grid constants",
          "value-identity analysis on SSA"),
  "C20": ("ASHIFT (signed shift = floor), EMPTYGUARD, EFFECT-PARAM (helpers leave arguments alone), SETOP-SHAPE (total scans, membership polarity), MATMUL-INDEX",
